@@ -17,7 +17,8 @@ CHECKS_FOR = {'C01-B': ['C01', 'C03'], 'C02-B': ['C02', 'C03'],
               'C08-C': ['C08', 'C09'], 'C11-D': ['C11', 'C03'],
               'C02-E': ['C02', 'C01'], 'C08-F': ['C08', 'C07'],
               'C10-F': ['C10', 'C08'], 'C15-E': ['C15', 'C07'],
-              'C03-E': ['C03', 'C01'], 'C14-E': ['C14', 'C01']}
+              'C03-E': ['C03', 'C01'], 'C14-E': ['C14', 'C01'],
+              'C04-E': ['C04', 'C11'], 'C11-E': ['C11', 'C03']}
 
 
 def one(sid, suite):
